@@ -34,5 +34,9 @@ ASSUMPTIONS = [
 
 def extra_coverage(agg):
     p = agg["probes"]
-    return {"fault_points_enumerated": {k: p.get(k, 0) for k in ("W1-points", "W2-points", "W3-points", "W5-points", "truncations")},
-            "exhaustive_within_scenario": True}
+    pts = {k: p.get(k, 0) for k in ("W1-points", "W2-points", "W3-points", "W5-points", "truncations")}
+    scen = sum(v for k, v in p.items() if k.startswith("writer:"))
+    return {"fault_points_enumerated": pts, "exhaustive_within_scenario": True, "scenarios": scen,
+            "evaluations": int(scen + sum(pts.values())),  # golden runs + one re-execution per fault point + one reopen per truncation
+            "survivors_read_back": p.get("survivor-read-back", 0),
+            "distinct_nontrivial_note": "counted conservatively as distinct scenario digests; each scenario contributes its whole enumerated set of fault points"}
